@@ -63,26 +63,27 @@ type env struct {
 	serveDone chan struct{}
 	sig       chan struct{} // poked on every state change
 
-	mu         sync.Mutex
-	serveErr   error
-	servePanic bool
-	obs        map[string]int
-	acts       map[string]*action
-	actList    []*action
-	libElems   []*xmltree.Node   // complete elements the library wrote, in order
-	libIDs     map[string]string // id -> type of stanzas the library wrote
-	sent       []byte            // everything the peer wrote after its header
-	autoReply  func(req *xmltree.Node) string
-	onElem     func(n *xmltree.Node)
-	fixedIDs   map[string]bool
-	conns      []*ibb.Conn
-	channel    *muc.Channel
-	outConn    *ibb.Conn
-	wedged     bool
-	serveGID   string          // goroutine id of this case's Serve call
-	actionGIDs map[string]bool // goroutine ids of this case's application calls
-	tag        string          // workload 2: the library function owning the response
-	readAll    bool            // history consumer reads every token of Current()
+	mu            sync.Mutex
+	serveErr      error
+	servePanic    bool
+	obs           map[string]int
+	acts          map[string]*action
+	actList       []*action
+	libElems      []*xmltree.Node   // complete elements the library wrote, in order
+	libIDs        map[string]string // id -> type of stanzas the library wrote
+	sent          []byte            // everything the peer wrote after its header
+	autoReply     func(req *xmltree.Node) string
+	onElem        func(n *xmltree.Node)
+	fixedIDs      map[string]bool
+	conns         []*ibb.Conn
+	channel       *muc.Channel
+	outConn       *ibb.Conn
+	wedged        bool
+	closedLocally bool            // the application called Session.Close in this case
+	serveGID      string          // goroutine id of this case's Serve call
+	actionGIDs    map[string]bool // goroutine ids of this case's application calls
+	tag           string          // workload 2: the library function owning the response
+	readAll       bool            // history consumer reads every token of Current()
 
 	bg   sync.WaitGroup
 	loop *sess.PeerLoop
@@ -94,6 +95,8 @@ type action struct {
 	reqID string
 	ok    bool
 	err   error
+	// cancel cancels the context of this call only
+	cancel context.CancelFunc
 	// detached actions take no context (ibb.Conn.Write): nothing obliges them to
 	// return once the session is gone, so they are neither awaited nor judged
 	detached bool
@@ -516,6 +519,8 @@ func (e *env) stallTag() string {
 // start runs an application-side library call on its own goroutine.
 func (e *env) start(name, reqID string, f func(ctx context.Context) (bool, error)) *action {
 	a := &action{name: name, done: make(chan struct{}), reqID: reqID}
+	actx, cancel := context.WithCancel(e.ctx)
+	a.cancel = cancel
 	e.mu.Lock()
 	e.acts[name] = a
 	e.actList = append(e.actList, a)
@@ -531,9 +536,78 @@ func (e *env) start(name, reqID string, f func(ctx context.Context) (bool, error
 		e.mu.Lock()
 		e.actionGIDs[goid()] = true
 		e.mu.Unlock()
-		e.c.Guard(name, func() { a.ok, a.err = f(e.ctx) })
+		e.c.Guard(name, func() { a.ok, a.err = f(actx) })
 	}()
 	return a
+}
+
+// waitConsumed waits (bounded) until the library has read everything the peer
+// wrote so far: some goroutine sits in a transport read again, or Serve ended.
+// It only orders deliveries; nothing is judged on it.
+func (e *env) waitConsumed() {
+	for i := 0; i < 1500; i++ {
+		if e.p.Lib.BlockedReads() > 0 || e.served() {
+			return
+		}
+		time.Sleep(200 * time.Microsecond)
+	}
+	e.c.Count("split_piece_not_consumed_in_time", 1)
+}
+
+// deliverSplit writes raw to the library in pieces cut at the byte offsets
+// cuts, waiting for each piece to be consumed before the next one is sent, and
+// cancels the context of call a before piece number cancelAt (len(pieces) =
+// after the last piece, negative = never), giving the call a moment to return
+// so that the rest of the reply really arrives after its caller has gone.  tail
+// (the sentinel) follows the last piece.
+func (e *env) deliverSplit(raw string, cuts []int, cancelAt int, a *action, tail string) {
+	var pieces []string
+	prev := 0
+	for _, c := range cuts {
+		if c > prev && c < len(raw) {
+			pieces = append(pieces, raw[prev:c])
+			prev = c
+		}
+	}
+	pieces = append(pieces, raw[prev:])
+	doCancel := func() {
+		if a == nil || a.cancel == nil {
+			return
+		}
+		a.cancel()
+		e.c.Count("reply_split_cancelled", 1)
+		select {
+		case <-a.done:
+			e.c.Count("reply_split_call_returned_on_cancel", 1)
+		case <-time.After(50 * time.Millisecond):
+		}
+	}
+	if len(pieces) > 1 {
+		e.c.Count("reply_split_deliveries", 1)
+	}
+	for i, pc := range pieces {
+		if i == cancelAt {
+			if i > 0 {
+				e.c.Count("reply_split_cancel_between_pieces", 1)
+			} else {
+				e.c.Count("reply_cancel_before_first_piece", 1)
+			}
+			doCancel()
+		}
+		if i == len(pieces)-1 && cancelAt != len(pieces) {
+			pc += tail
+		}
+		e.peerWrite(pc)
+		if i < len(pieces)-1 {
+			e.waitConsumed()
+		}
+	}
+	if cancelAt == len(pieces) {
+		e.waitConsumed()
+		e.c.Count("reply_cancel_after_last_piece", 1)
+		doCancel()
+		e.peerWrite(tail)
+	}
 }
 
 // settle gives a call whose reply has been processed a moment to return.
@@ -668,6 +742,16 @@ func (e *env) checkServeNil() {
 	err, panicked, wedged := e.serveErr, e.servePanic, e.wedged
 	e.mu.Unlock()
 	if panicked || wedged || !e.served() {
+		return
+	}
+	if e.closedLocally {
+		// the output stream was closed by the application: sentinels cannot be
+		// answered any more, this clause has nothing to observe
+		if err != nil {
+			e.c.Count("serve_returned_error_after_local_close", 1)
+		} else {
+			e.c.Count("serve_returned_nil_after_local_close", 1)
+		}
 		return
 	}
 	if err != nil {
